@@ -289,6 +289,9 @@ func (s *S) cur() *Thread {
 	return t
 }
 
+// CurrentName is the name of the running thread.
+func (s *S) CurrentName() string { return s.cur().Name }
+
 // ---- hooks ------------------------------------------------------------------
 
 // Yield is a pure scheduling point.
